@@ -177,6 +177,29 @@ def main():
         nd[i + 1] = d
         meta[i + 1] = r
         jobs.append({'tid': i + 1, 'deck': d, 'opts': []})
+    # covariance: the same carriers with a GENERAL rotation phi (irrational entries).  The converter sees the
+    # deck with the transformation phi, TLC the deck without any transformation and the probe points in the
+    # auxiliary frame; the sense rows are evaluated at phi(points).
+    base = len(jobs)
+    gen_recs = [r for r in recs if r['carrier'] in ('surftr', 'trclnum', 'trclinline')
+                and r['spell'] in ('12', '13', 'rows12', 'rows13', 'rows23', 'cols12', 'cols13', 'cols23')]
+    rng.shuffle(gen_recs)
+    for i, r in enumerate(gen_recs[:(3000 if thorough else 400)]):
+        o, R = adeck.PHIS[i % len(adeck.PHIS)]
+        phi_tr = {'o': list(o), 'm': [R[rr][cc] for cc in range(3) for rr in range(3)]}
+        moved = adeck.normalise(build_deck(dict(r, tr=phi_tr)))
+        ident = adeck.normalise(build_deck(dict(r, tr={'o': [0, 0, 0], 'm': adeck.IDM})))
+        for c in ident['cells']:
+            c['hastrcl'] = False
+        for sf in ident['surfs']:
+            sf['tr'] = 0
+        ident['trs'] = []
+        ident['pts'] = rng.sample(allpts, 140)
+        tid = base + i + 1
+        nd[tid] = ident
+        meta[tid] = dict(r, general=True)
+        jobs.append({'tid': tid, 'deck': ident, 'opts': [], 'text': adeck.concretise(moved),
+                     'real_points': adeck.moved_points(ident['pts'], (o, R))})
     records = conv.run_batch(deckrun.run_deck, jobs, chunksize=16)
     core.lap('converter x%d' % len(jobs))
     good = [r for r in records if 'machinery_error' not in r]
@@ -184,7 +207,7 @@ def main():
         if 'machinery_error' in r:
             chk.machinery(r['machinery_error'])
     try:
-        verdicts = deckrun.validate(chk, good, nd, 'owner,witness')
+        verdicts = deckrun.validate(chk, good, nd, 'owner,witness')    # (no witness rows are recorded for the moved decks)
         nmat = part_b(chk, thorough, rng)
     except tlc.TLCFailure as exc:
         chk.machinery(str(exc))
@@ -196,7 +219,7 @@ def main():
     nt = 0
     for tid, v in sorted(verdicts.items()):
         r, rec = meta[tid], byid[tid]
-        ident = r['tr']['m'] == adeck.IDM and r['tr']['o'] == [0, 0, 0]
+        ident = r['tr']['m'] == adeck.IDM and r['tr']['o'] == [0, 0, 0] and not r.get('general')
         if v['nowners'] >= 2 and not ident:
             nt += 1
         for kind, pt in v['bad']:
@@ -210,6 +233,7 @@ def main():
                        (card['k'] in ('k/x', 'k/y', 'k/z') and len(card['p']) == 5) or \
                        (card['k'] in 'xyz' and len(card['p']) == 4)
             sig = {'clause': kind, 'mnemonic': card['k'], 'carrier': r['carrier'], 'spell': r['spell'],
+                   'general_rotation': bool(r.get('general')),
                    'onesheet': bool(onesheet),
                    'errtype': err['type'] if err else None, 'where': err['where'] if err else None}
             chk.violation(sig, {'text': rec['text'], 'record': r, 'error': err, 'deck': nd[tid],
